@@ -680,6 +680,135 @@ Section SSpecSound.
   Lemma upd_same x F P : q_fired x = F -> q_pending x = P -> x = upd x F P.
   Proof. destruct x. cbn. intros <- <-. reflexivity. Qed.
 
+  (* ---------------- the re-deliveries caused by one late Add (ALLOWEDLATENESS > 0) ---------------- *)
+  Definition lbatch (ts : Z) (d : list row) (t : twin) : batch :=
+    {| b_start := t_start t; b_end := t_end t;
+       b_rows := t_snap t ++ filter (fun x => in_twin t (rts x) && negb (existsb (fun y => rid y =? rid x) (t_snap t))) d;
+       b_late := true |}.
+  Definition ltwin (ts : Z) (d : list row) (t : twin) : twin :=
+    {| t_start := t_start t; t_end := t_end t; t_close := t_close t; t_snap := b_rows (lbatch ts d t) |}.
+
+  Lemma late_updates_cons ts d t r :
+    late_updates ts d (t :: r) =
+    (if in_twin t ts then (ltwin ts d t :: fst (late_updates ts d r), lbatch ts d t :: snd (late_updates ts d r))
+     else (t :: fst (late_updates ts d r), snd (late_updates ts d r))).
+  Proof. cbn [late_updates]. destruct (late_updates ts d r) as [r' bs]. destruct (in_twin t ts); reflexivity. Qed.
+
+  Lemma firstn_app_len {A} (l1 l2 : list A) : firstn (length l1) (l1 ++ l2) = l1.
+  Proof. induction l1 as [|a l IH]; cbn; [destruct l2; reflexivity|f_equal; exact IH]. Qed.
+  Lemma skipn_app_len {A} (l1 l2 : list A) : skipn (length l1) (l1 ++ l2) = l2.
+  Proof. induction l1 as [|a l IH]; cbn; [reflexivity|exact IH]. Qed.
+
+  Lemma in_twin_sinwin t x : t_end t = t_start t + ssize c -> sinwin c (t_start t) x = in_twin t x.
+  Proof. intros H. unfold sinwin, in_twin. rewrite H. reflexivity. Qed.
+
+  Lemma late_batch_ok id ts d seen' cs t :
+    (0 <? slateness c) = true -> In (id, ts) d -> Forall (fun r => In r seen') d ->
+    q_seen cs = seen' -> q_lastadd cs = Some (id, ts) ->
+    SKT (q_fired cs) seen' t -> in_twin t ts = true -> (forall y, In y (t_snap t) -> rid y <> id) ->
+    schk_ev c base cs (EvBatch (lbatch ts d t)) =
+    inl (upd cs (replace_fired (lbatch ts d t) (q_fired cs)) (filter (fun x => negb (x =? t_start t)) (q_pending cs))).
+  Proof.
+    intros Hlat Hind Hd Hseen Hlast (A & B & C & D & prev & Hf & Hr) Htw Hfr.
+    rewrite Forall_forall in Hd, D.
+    set (extra := filter (fun x => in_twin t (rts x) && negb (existsb (fun y => rid y =? rid x) (t_snap t))) d).
+    assert (Hres : forall x, In x (t_snap t ++ extra) -> in_twin t (rts x) = true /\ In x seen').
+    { intros x Hx. apply in_app_or in Hx as [Hx|Hx]; [apply D; exact Hx|].
+      apply filter_In in Hx as [Hx Hc]. apply andb_prop in Hc as [Hc _]. split; [exact Hc|apply Hd; exact Hx]. }
+    assert (Hnew : In (id, ts) extra).
+    { apply filter_In. split; [exact Hind|]. cbn [rts rid snd fst]. rewrite Htw. cbn [andb]. apply negb_true_iff.
+      apply not_true_iff_false. intros H. apply existsb_exists in H as (y & Hy & He). apply Z.eqb_eq in He. exact (Hfr y Hy He). }
+    unfold lbatch. fold extra. cbn [schk_ev b_start b_end b_rows].
+    assert (C1 : (t_end t =? t_start t + ssize c) && (0 <? sslide c) && (t_start t mod sslide c =? 0)
+                 && forallb (fun r => sinwin c (t_start t) (rts r)) (t_snap t ++ extra) = true).
+    { rewrite A, Z.eqb_refl. assert (E : (0 <? sslide c) = true) by (apply Z.ltb_lt; exact Hslide). rewrite E. cbn [andb].
+      apply andb_true_iff. split; [apply Z.eqb_eq; apply saligned_mod; exact C|].
+      apply forallb_forall. intros x Hx. rewrite (in_twin_sinwin t (rts x) A). apply (Hres x Hx). }
+    rewrite C1. cbn [negb].
+    assert (C2 : sub_rows (t_snap t ++ extra) (q_seen cs) = true).
+    { rewrite Hseen. apply forallb_forall. intros x Hx. apply row_in_In. apply (Hres x Hx). }
+    rewrite C2. cbn [negb]. rewrite Hf.
+    assert (C3 : (slateness c <=? 0) = false) by (apply Z.leb_gt; apply Z.ltb_lt in Hlat; exact Hlat).
+    rewrite C3, Hlast, Hr. rewrite firstn_app_len, skipn_app_len, rows_eqb_refl.
+    assert (C4 : forallb (fun x => negb (id_in (rid x) (t_snap t))) extra = true).
+    { apply forallb_forall. intros x Hx. apply filter_In in Hx as [_ Hc]. apply andb_prop in Hc as [_ Hc]. exact Hc. }
+    rewrite C4. rewrite (row_in_In (id, ts) (t_snap t ++ extra) (in_or_app _ _ _ (or_intror Hnew))). cbn [andb orb].
+    unfold upd. rewrite Hlast. reflexivity.
+  Qed.
+
+  Lemma SKT_find_same F F' seen t : SKT F seen t -> find_fired (t_start t) F' = find_fired (t_start t) F -> SKT F' seen t.
+  Proof.
+    intros (A & B & C & D & p & Hf & Hr) E. split; [exact A|]. split; [exact B|]. split; [exact C|]. split; [exact D|].
+    exists p. split; [rewrite E; exact Hf|exact Hr].
+  Qed.
+
+  Lemma late_batches_sound id ts d seen' :
+    (0 <? slateness c) = true -> In (id, ts) d -> Forall (fun r => In r seen') d ->
+    forall l cs,
+      q_seen cs = seen' -> q_lastadd cs = Some (id, ts) ->
+      Forall (SKT (q_fired cs) seen') l -> NoDup (map t_start l) ->
+      (forall t y, In t l -> In y (t_snap t) -> rid y <> id) ->
+      exists F' P', schk_evs cs (map EvBatch (snd (late_updates ts d l))) = inl (upd cs F' P') /\
+        Forall (SKT F' seen') (fst (late_updates ts d l)) /\ map t_start (fst (late_updates ts d l)) = map t_start l /\
+        (forall a, ~ In a (map t_start l) -> find_fired a F' = find_fired a (q_fired cs)) /\
+        frel l (q_fired cs) F' /\
+        (forall x, In x P' -> In x (q_pending cs) /\ forall t, In t l -> in_twin t ts = true -> t_start t <> x).
+  Proof.
+    intros Hlat Hind Hd. induction l as [|t r IH]; intros cs Hseen Hlast Hkt Hnd Hfr.
+    - cbn [late_updates fst snd map schk_evs]. exists (q_fired cs), (q_pending cs).
+      split; [f_equal; apply upd_same; reflexivity|]. split; [constructor|]. split; [reflexivity|]. split; [reflexivity|].
+      split; [apply frel_refl|]. intros x Hx. split; [exact Hx|intros t []].
+    - rewrite late_updates_cons. inversion Hkt as [|t0 r0 Ht Hr]; subst t0 r0.
+      cbn [map] in Hnd. inversion Hnd as [|a0 l0 Hni Hnd']; subst a0 l0.
+      assert (Hfr' : forall t0 y, In t0 r -> In y (t_snap t0) -> rid y <> id) by (intros t0 y H; apply Hfr; right; exact H).
+      destruct (in_twin t ts) eqn:Etw; cbn [fst snd map schk_evs].
+      + (* this window is re-delivered *)
+        rewrite (late_batch_ok id ts d seen' cs t Hlat Hind Hd Hseen Hlast Ht Etw (fun y Hy => Hfr t y (or_introl eq_refl) Hy)).
+        set (b := lbatch ts d t) in *.
+        set (cs1 := upd cs (replace_fired b (q_fired cs)) (filter (fun x => negb (x =? t_start t)) (q_pending cs))).
+        assert (Hkt1 : Forall (SKT (q_fired cs1) seen') r).
+        { cbn [cs1 upd q_fired]. apply Forall_forall. intros y Hy. rewrite Forall_forall in Hr.
+          destruct (Hr y Hy) as (A & B & C & D & p & Hf & Hrr). split; [exact A|]. split; [exact B|]. split; [exact C|]. split; [exact D|].
+          exists p. split; [|exact Hrr]. rewrite find_fired_replace_other; [exact Hf|].
+          cbn [b lbatch b_start]. intros Heq. apply Hni. rewrite <- Heq. apply in_map. exact Hy. }
+        destruct (IH cs1 Hseen Hlast Hkt1 Hnd' Hfr') as (F' & P' & Hrun & Htr & Hst & Hsame & (Hf1 & Hf2 & Hf3) & Hp).
+        exists F', P'. split; [exact Hrun|].
+        pose proof Ht as (A & B & C & D & p & Hfp & Hrp).
+        assert (Hres : Forall (fun x => in_twin t (rts x) = true /\ In x seen') (b_rows b)).
+        { cbn [b lbatch b_rows]. apply Forall_app. split; [exact D|]. apply Forall_forall. intros x Hx.
+          apply filter_In in Hx as [Hx Hc]. apply andb_prop in Hc as [Hc _]. rewrite Forall_forall in Hd. split; [exact Hc|apply Hd; exact Hx]. }
+        assert (Hb1 : find_fired (t_start t) (q_fired cs1) = Some b).
+        { cbn [cs1 upd q_fired]. apply (find_fired_replace_same b (q_fired cs) p). exact Hfp. }
+        split; [|split; [|split; [|split]]].
+        * constructor; [|exact Htr]. split; [exact A|]. split; [exact B|]. split; [exact C|]. split; [exact Hres|].
+          exists b. split; [|reflexivity]. cbn [ltwin t_start]. rewrite (Hsame (t_start t) Hni). exact Hb1.
+        * cbn [ltwin t_start]. f_equal. exact Hst.
+        * intros a Ha. rewrite Hsame; [|intros H; apply Ha; right; exact H]. cbn [cs1 upd q_fired].
+          apply find_fired_replace_other. cbn [b lbatch b_start]. intros Heq. apply Ha. left. symmetry. exact Heq.
+        * split; [|split].
+          -- intros a b0 Hb0. destruct (Z.eq_dec a (t_start t)) as [->|Hne].
+             ++ destruct (Hf1 _ _ Hb1) as (b' & Hb' & Hincl). exists b'. split; [exact Hb'|].
+                eapply incl_tran; [|exact Hincl]. assert (b0 = p) by congruence. subst b0. rewrite Hrp.
+                cbn [b lbatch b_rows]. apply incl_appl. apply incl_refl.
+             ++ apply Hf1. cbn [cs1 upd q_fired]. rewrite find_fired_replace_other; [exact Hb0|exact Hne].
+          -- intros Q HQ Hnew. apply Hf2.
+             ++ cbn [cs1 upd q_fired]. apply Forall_replace_fired; [exact HQ|]. apply Hnew. exists t. split; [left; reflexivity|auto].
+             ++ intros b' (t0 & Ht0 & E). apply Hnew. exists t0. split; [right; exact Ht0|exact E].
+          -- intros E. apply Hf3. cbn [cs1 upd q_fired]. rewrite E. reflexivity.
+        * intros x Hx. destruct (Hp x Hx) as [Hx1 Hx2]. cbn [cs1 upd q_pending] in Hx1. apply filter_In in Hx1 as [Hx1 Hne].
+          split; [exact Hx1|]. intros t0 [<-|Ht0] Htw0; [|apply Hx2; assumption].
+          apply negb_true_iff, Z.eqb_neq in Hne. congruence.
+      + (* not this one *)
+        destruct (IH cs Hseen Hlast Hr Hnd' Hfr') as (F' & P' & Hrun & Htr & Hst & Hsame & (Hf1 & Hf2 & Hf3) & Hp).
+        exists F', P'. split; [exact Hrun|]. split; [|split; [|split; [|split]]].
+        * constructor; [|exact Htr]. apply (SKT_find_same (q_fired cs)); [exact Ht|]. apply Hsame. exact Hni.
+        * f_equal. exact Hst.
+        * intros a Ha. apply Hsame. intros H. apply Ha. right. exact H.
+        * split; [exact Hf1|]. split; [|exact Hf3]. intros Q HQ Hnew. apply Hf2; [exact HQ|].
+          intros b' (t0 & Ht0 & E). apply Hnew. exists t0. split; [right; exact Ht0|exact E].
+        * intros x Hx. destruct (Hp x Hx) as [Hx1 Hx2]. split; [exact Hx1|]. intros t0 [<-|Ht0] Htw0; [congruence|apply Hx2; assumption].
+  Qed.
+
   Section Add.
     Variables (s : sst) (cs : scst) (id ts : Z) (s1 : sst) (bs : list batch).
     Hypothesis HK : SK s cs.
@@ -709,9 +838,59 @@ Section SSpecSound.
       - apply frel_refl.
       - intros t [].
     Qed.
+    (* a late Add with ALLOWEDLATENESS > 0: every open triggered window holding ts is re-delivered, which is at least
+       what the checker demands (the fired intervals holding ts that the statement's watermark has not closed) *)
+    Lemma add_late_sound :
+      is_late ts (update_event_time (sooo c) base ts (s_w s)) = true -> (0 <? slateness c) = true ->
+      late_updates ts (s_data s ++ [(id, ts)]) (s_trig s) = (s_trig s1, bs) ->
+      exists cs', schk_evs cs (EvAdd id ts :: map EvBatch bs) = inl cs' /\ SK s1 cs' /\ q_seen cs' = q_seen cs ++ [(id, ts)].
+    Proof.
+      intros Hlt Hlat Hlu.
+      pose proof (sadd_core_SInv c Hslide Hsize id ts base s s1 bs (k_inv _ _ HK) Hts Ea) as Hinv1.
+      destruct (sadd_core_shape c id ts base s s1 bs Ea) as (Si & Sw & Sp & Sa & Ss & _ & _). cbn zeta in Ss.
+      destruct (sadd_core_cases id ts s s1 bs Ea) as (Hd1 & _). cbn zeta in Hd1.
+      cbn [schk_evs]. rewrite (schk_add cs id ts (k_pending _ _ HK)).
+      set (cs1 := add_cst cs id ts). set (d := s_data s ++ [(id, ts)]) in *. set (seen' := q_seen cs ++ [(id, ts)]).
+      pose proof (k_trig _ _ HK) as Htr. pose proof Htr as Htr0. rewrite Forall_forall in Htr0.
+      assert (Hd : Forall (fun r => In r seen') d).
+      { apply Forall_app. split; [|constructor; [apply in_or_app; right; left; reflexivity|constructor]].
+        eapply Forall_impl; [|exact (k_data _ _ HK)]. intros r Hr. apply in_or_app. left. exact Hr. }
+      assert (Hkt : Forall (SKT (q_fired cs1) seen') (s_trig s)).
+      { cbn [cs1 add_cst q_fired]. eapply Forall_impl; [|exact Htr]. intros t. apply SKT_mono. }
+      assert (Hfr : forall t y, In t (s_trig s) -> In y (t_snap t) -> rid y <> id).
+      { intros t y Ht Hy Heq. apply Hfresh. rewrite <- Heq. apply in_map. destruct (Htr0 t Ht) as (_ & _ & _ & D & _).
+        rewrite Forall_forall in D. apply (D y Hy). }
+      assert (Hind : In (id, ts) d) by (apply in_or_app; right; left; reflexivity).
+      destruct (late_batches_sound id ts d seen' Hlat Hind Hd (s_trig s) cs1
+                  eq_refl eq_refl Hkt (k_trig_nd _ _ HK) Hfr) as (F' & P' & Hrun & Htr1 & Hst1 & _ & Hfrel & Hp).
+      rewrite Hlu in Hrun, Htr1, Hst1. cbn [fst snd] in Hrun, Htr1, Hst1.
+      (* everything the checker asked for has been re-delivered *)
+      assert (HP : P' = []).
+      { destruct P' as [|x P'']; [reflexivity|exfalso]. destruct (Hp x (or_introl eq_refl)) as [Hx Hno].
+        cbn [cs1 add_cst q_pending] in Hx.
+        destruct (ssane c base ts && negb (ontime_of (q_maxts cs) ts) && (0 <? slateness c)) eqn:El; [|contradiction].
+        apply andb_prop in El as [El _]. apply andb_prop in El as [Esn _]. rewrite Esn in Hx.
+        apply in_map_iff in Hx as (b & Hbx & Hb). apply filter_In in Hb as [Hb Hc]. apply andb_prop in Hc as [Hw Hm].
+        apply Z.ltb_lt in Hm.
+        pose proof (k_open _ _ HK) as Hop. rewrite Forall_forall in Hop. destruct (Hop b Hb) as [(t & Ht & Hts')|Hr].
+        - apply (Hno t Ht); [|congruence]. destruct (Htr0 t Ht) as (A & _). rewrite <- (in_twin_sinwin t ts A), Hts'. exact Hw.
+        - pose proof (k_wk _ _ HK) as [_ Hc _ _ _ _]. rewrite Hc in Hr. cbn [tc ooo] in Hr.
+          destruct (q_maxts cs) as [m|]; cbn [option_map ole omax] in Hr, Hm; [lia|contradiction]. }
+      subst P'. exists (upd cs1 F' []). split; [exact Hrun|]. split; [|reflexivity].
+      apply (add_SK s cs id ts s1 (s_trig s) F' _ _ _ _ HK Hts Hfresh eq_refl eq_refl eq_refl eq_refl Si Ss Sw Sp Sa Hd1 Hinv1 Htr1 Hst1 Hfrel).
+      intros t Ht. split; [exact Ht|exact Hlt].
+    Qed.
+
+    Lemma add_sound :
+      exists cs', schk_evs cs (EvAdd id ts :: map EvBatch bs) = inl cs' /\ SK s1 cs' /\ q_seen cs' = q_seen cs ++ [(id, ts)].
+    Proof.
+      destruct (sadd_core_cases id ts s s1 bs Ea) as (_ & [(Ht & Hb & Hlat)|(Hlt & Hlat & Hlu)]).
+      - exact (add_plain_sound Ht Hb Hlat).
+      - exact (add_late_sound Hlt Hlat Hlu).
+    Qed.
   End Add.
 
-  (* ---------------- every step, every history: ALLOWEDLATENESS = 0 ---------------- *)
+  (* ---------------- every step, every history ---------------- *)
   Definition sop_okc (cs : scst) (o : op) : Prop :=
     match o with Add id ts now => now = base /\ 0 <= ts /\ ~ In id (map rid (q_seen cs)) | _ => True end.
 
@@ -763,19 +942,18 @@ Section SSpecSound.
     - intros r a [].
   Qed.
 
-  Lemma step_sound_lat0 : slateness c = 0 -> step_sound_stmt.
+  Lemma step_sound : step_sound_stmt.
+  Proof. apply step_sound_from_add. exact add_sound. Qed.
+
+  (* every clause of the executable checker holds of every trace of the model, for all histories of atomic steps,
+     any ALLOWEDLATENESS (<= 0: Add never emits a batch; > 0: late updates over all open windows holding the row) *)
+  Theorem sliding_model_passes_checker h :
+    Forall (hist_op_ok base) h -> NoDup (hids h) -> chk_C08 c base (snd (srun c sst0 h)) = None.
   Proof.
-    intros Hl0. apply step_sound_from_add. intros s cs id ts s1 bs HK Hts Hfresh Ea.
-    destruct (sadd_core_cases id ts s s1 bs Ea) as (_ & [(Ht & Hb & Hlat)|(_ & Hlat & _)]).
-    - exact (add_plain_sound s cs id ts s1 bs HK Hts Hfresh Ea Ht Hb Hlat).
-    - rewrite Hl0 in Hlat. discriminate.
+    intros Hok Hnd. unfold chk_C08. apply (run_sound_from_step step_sound h sst0 scst0 SK0 Hok). exact Hnd.
   Qed.
 
-  (* every clause of the executable checker holds of every trace of the model, for all histories of atomic steps
-     (ALLOWEDLATENESS = 0: Add never emits a batch) *)
-  Theorem sliding_model_passes_checker_lat0 h :
+  Corollary sliding_model_passes_checker_lat0 h :
     slateness c = 0 -> Forall (hist_op_ok base) h -> NoDup (hids h) -> chk_C08 c base (snd (srun c sst0 h)) = None.
-  Proof.
-    intros Hl0 Hok Hnd. unfold chk_C08. apply (run_sound_from_step (step_sound_lat0 Hl0) h sst0 scst0 SK0 Hok). exact Hnd.
-  Qed.
+  Proof. intros _. apply sliding_model_passes_checker. Qed.
 End SSpecSound.
